@@ -5,7 +5,7 @@ import random
 from harness import core, htmlnorm, treegen, trees, xdoc
 
 GEN = ['gen_tables', 'gen_regex', 'gen_config', 'gen_escapes', 'gen_core']
-THEOREMS = ['C03_thematic_break', 'C03_thematic_configs', 'C03_setext_heading', 'C03_setext_hypotheses', 'C03_indented_code_block', 'C03_indented_code_hypotheses', 'C03_link_scanners_are_the_source', 'C03_fragment_parses', 'C03_fragment_token_tree', 'C03_fragment_hypotheses', 'C03_fragment_fuel_suffices', 'C03_fragment_document',
+THEOREMS = ['C03_fragment_rules_instance', 'C03_thematic_break', 'C03_thematic_configs', 'C03_setext_heading', 'C03_setext_hypotheses', 'C03_indented_code_block', 'C03_indented_code_hypotheses', 'C03_link_scanners_are_the_source', 'C03_fragment_parses', 'C03_fragment_token_tree', 'C03_fragment_hypotheses', 'C03_fragment_fuel_suffices', 'C03_fragment_document',
             'C03_fragment_html', 'C03_fragment_markdown_html', 'C03_fragment_html_instance', 'C03_fragment_paragraph_lines_instance', 'C03_fragment_headings_instance', 'C03_outline_lists', 'C03_outline_html', 'C03_outline_instance',
             'C03_fragment_document_markdown', 'C03_fragment_document_configs', 'C03_bounded_trees', 'C03_family_is_not_vacuous']
 TRUSTED = ['harness/treegen.py: the tree grammar, the speller (every free choice drawn and counted) and the direct HTML writer - the independent oracle; '
@@ -81,6 +81,8 @@ def frag_tree(rng, depth):
             ch = rng.choice('`~')
             body = [l for l in (rng.choice(FRAG_CODE) for _ in range(rng.randint(0, 4))) if not l.lstrip(' ').startswith(ch) and (l == '' or l.strip(' '))]
             return ('f', ch * rng.randint(3, 5), body)
+        if rng.random() < 0.12:                              # a thematic break: three or more of one of - _ *
+            return ('r', rng.choice('-_*') * rng.randint(3, 7))
         if rng.random() < 0.2:                               # an ATX heading: title without '#', not beginning or ending with white space
             title = ' '.join(rng.choice(FRAG_HEAD) for _ in range(rng.randint(1, 4)))
             return ('h', rng.randint(1, 6), title)
@@ -95,6 +97,8 @@ def frag_tree(rng, depth):
     if r < 0.7:
         return ('q', kids)
     mk = rng.choice(['-', '+', '*', '1.', '7)', '12.', '123456789)', '0.'])
+    if kids[0][0] == 'r' and mk in '-*' and kids[0][1][0] == mk:      # `- ---` would be a thematic break as a whole
+        kids[0] = ('r', ('_' if mk == '-' else '-') * len(kids[0][1]))
     return ('i', mk, rng.randint(1, 4), kids)
 
 
@@ -103,6 +107,8 @@ def frag_spell(t):
         return list(t[1])
     if t[0] == 'h':
         return ['#' * t[1] + ' ' + t[2]]
+    if t[0] == 'r':
+        return [t[1]]
     if t[0] == 'f':
         return [t[1]] + t[2] + [t[1]]
     kids = t[-1]
@@ -128,6 +134,8 @@ def frag_expect(t, ln):
         return [trees.TAGS['Paragraph'], ch], [ln]
     if t[0] == 'h':
         return [trees.TAGS['Heading'], t[1], '', [[0, t[2]]]], [ln]
+    if t[0] == 'r':
+        return [trees.TAGS['ThematicBreak'], t[1]], [ln]
     if t[0] == 'f':
         return [trees.TAGS['CodeFence'], 0, t[1], '', '', ''.join(l + '\n' for l in t[2])], [ln]
     kids = t[-1]
@@ -153,6 +161,8 @@ def frag_html(t, tight):
         return inner if tight else '<p>' + inner + '</p>'
     if t[0] == 'h':
         return '<h%d>%s</h%d>' % (t[1], esc(t[2]), t[1])
+    if t[0] == 'r':
+        return '<hr />'
     if t[0] == 'f':
         return '<pre><code>' + esc(''.join(l + '\n' for l in t[2])) + '</code></pre>'
     kids = t[-1]
